@@ -178,6 +178,13 @@ theorem tcp_grammar_partial (l : Str) (s : TcpSig) (hk : ¬ Huginn.KF.C06.unknow
     parseTcpSigFull l = some s ↔ TcpLine l s :=
   ⟨fun h => line_of_parseTcpSigFull h hk, parseTcpSigFull_of_line⟩
 
+/-- so: text that is not a signature of the language is rejected (outside the finding) -/
+theorem tcp_not_line_rejected (l : Str) (hk : ¬ Huginn.KF.C06.unknownKindOverflow l)
+    (h : ∀ s, ¬ TcpLine l s) : parseTcpSigFull l = none := by
+  cases hp : parseTcpSigFull l with
+  | none => rfl
+  | some s => exact absurd ((tcp_grammar_partial l s hk).mp hp) (h s)
+
 /-- `*:64:0:*:*,0:?300::0` is accepted (as `?0`) although it is not a line of the language -/
 theorem kf_unknownKindOverflow_witness : ¬ FullTcpGrammar := fun h =>
   overflow_not_line ((h overflowLine overflowValue).mp overflow_parses)
